@@ -56,6 +56,24 @@ def cases(tier, rng, dist):
                 g2 = [rng.randint(0, 2) for _ in g]
             c["g2"] = g2
         yield c
+    # large stratified designs (strata x units beyond 2^14, e.g. 130 matched pairs / 75 strata of three), 2-D data (units x variables)
+    # and units whose stratum label is missing (NaN: they belong to no stratum and stay where they are)
+    for k in range(3 if tier == "quick" else 12):
+        ns, per = [(130, 2), (75, 3), (40, 7)][k % 3]
+        g = [a for a in range(ns) for _ in range(per)]; rng.shuffle(g)
+        yield {"f": "pwg", "x": [str(rng.randint(0, 9)) for _ in g], "g": g, "dtype": "float", "mode": "random", "aseed": rng.randint(0, 10**9)}
+        cnd = [0] * len(g); seen = {}
+        for i, a in enumerate(g):
+            cnd[i] = seen.get(a, 0) % 2; seen[a] = seen.get(a, 0) + 1
+        yield {"f": "s2s", "g": g, "c": cnd, "resp": [str(rng.randint(0, 9) * 4) for _ in g], "stat": STATV[0], "alt": "greater", "reps": 2, "plus1": True,
+               "keep": k % 2 == 0, "num": "np", "mode": "random", "aseed": rng.randint(0, 10**9)}
+    for fn in ("s2s", "ts"):
+        yield {"f": "manyreps", "fn": fn, "reps": 70001, "seed": rng.randint(0, 10**6), "plus1": rng.random() < 0.5, "alt": rng.choice(ALTS),
+               "resp": [rng.randint(0, 5) for _ in range(8)], "m": [[rng.randint(0, 1) for _ in range(4)] for _ in range(3)]}
+    for _ in range(10 if tier == "quick" else 100):
+        g = gen_strata(rng, dist)
+        yield {"f": "pwgx", "kind": rng.choice(["2d", "2d", "nanlabel", "nanlabel", "record"]), "g": g, "ncol": rng.randint(2, 3), "seed": rng.randint(0, 10**6),
+               "vals": [rng.randint(0, 9) for _ in range(3 * len(g))], "nanpos": [i for i in range(len(g)) if rng.random() < 0.3]}
     for _ in range(N // 2):
         R, Ns = rng.randint(1, 4), rng.randint(1, 4)
         yield {"f": "rows", "m": [[rng.randint(0, 3) for _ in range(Ns)] for _ in range(R)], "reps": rng.randint(1, 3), "mode": mode(), "aseed": rng.randint(0, 10**9),
@@ -161,8 +179,103 @@ def to_arr(vals, dtype):
     return arr(vals, dtype)
 
 
+def run_pwgx(c):
+    """permute_within_groups on data forms the tape model does not carry: 2-D (units x variables), record arrays, NaN labels"""
+    n = len(c["g"]); g = np.array(c["g"], dtype=float if c["kind"] == "nanlabel" else int)
+    if c["kind"] == "nanlabel":
+        for i in c["nanpos"]: g[i] = np.nan
+        x = np.array(c["vals"][:n], dtype=float) + np.arange(n) * 16.0
+    elif c["kind"] == "2d":
+        x = np.array(c["vals"][:n * c["ncol"]], dtype=float).reshape(n, c["ncol"]) + (np.arange(n) * 16.0)[:, None]
+    else:
+        x = np.zeros(n, dtype=[("a", float), ("b", int)]); x["a"] = np.array(c["vals"][:n], dtype=float) + np.arange(n) * 16.0; x["b"] = np.arange(n)
+    x0 = x.copy(); g0 = g.copy()
+    outs = []
+    for rep in range(3):
+        # unrelated allocations between the calls: the result must not depend on what the heap held before
+        junk = [np.full(n * (rep + 1), float(rep + 7)) for _ in range(4)]
+        r = guarded(lambda: utils.permute_within_groups(x, g, c["seed"]))
+        outs.append(r[1].tolist() if r[0] == "ok" else list(r)[:2]); del junk
+    unmod = bool((x == x0).all()) and bool(((g == g0) | (np.isnan(g) & np.isnan(g0))).all()) if c["kind"] == "nanlabel" else bool((x == x0).all() and (g == g0).all())
+    return {"outs": outs, "unmodified": unmod, "x": x0.tolist()}
+
+
+def oracle_pwgx(c, o):
+    if not o["unmodified"]:
+        _v = emit({"why": "permute_within_groups modified its arguments", "cls": "pwg:input-modified"})
+        if _v: return _v
+    first = o["outs"][0]
+    if first and first[0] == "exc":
+        _v = emit({"why": f"permute_within_groups raised {first} on {c['kind']} data", "cls": "pwg:raises"})
+        if _v: return _v
+        return None
+    if any(out != first for out in o["outs"][1:]):
+        _v = emit({"why": f"permute_within_groups(seed={c['seed']}) on {c['kind']} data returned different results on repeated calls: {str(first)[:120]} / {str(o['outs'][1])[:120]}", "cls": "pwg:irreproducible"})
+        if _v: return _v
+    key = lambda u: json.dumps(u)
+    x = o["x"]; g = list(c["g"]); n = len(g)
+    if len(first) != n:
+        _v = emit({"why": f"permute_within_groups returned {len(first)} units for {n}", "cls": "pwg:inadmissible"})
+        if _v: return _v
+        return None
+    lab = [None if (c["kind"] == "nanlabel" and i in c["nanpos"]) else g[i] for i in range(n)]
+    for k in set(lab):
+        idx = [i for i in range(n) if lab[i] == k]
+        if k is None:
+            if any(key(first[i]) != key(x[i]) for i in idx):
+                _v = emit({"why": f"units without a stratum label (NaN) did not stay where they are: input {[x[i] for i in idx]}, output {[first[i] for i in idx]}", "cls": "pwg:inadmissible"})
+                if _v: return _v
+        elif sorted(key(first[i]) for i in idx) != sorted(key(x[i]) for i in idx):
+            _v = emit({"why": f"permute_within_groups on {c['kind']} data: stratum {k} held {[x[i] for i in idx]} and now holds {[first[i] for i in idx]}: units are not conserved within the stratum", "cls": "pwg:inadmissible"})
+            if _v: return _v
+    return None
+
+
+def run_manyreps(c):
+    if c["fn"] == "s2s":
+        g = np.array([0, 0, 0, 0, 1, 1, 1, 1]); cond = np.array([0, 1, 0, 1, 0, 1, 0, 1]); resp = np.array(c["resp"], dtype=float)
+        call = lambda keep: stratified.stratified_two_sample(g, cond, resp, stat="mean", alternative=c["alt"], reps=c["reps"], keep_dist=keep, seed=c["seed"], plus1=c["plus1"])
+    else:
+        m = np.array(c["m"])
+        def call(keep):
+            d = irr.simulate_ts_dist(m, num_perm=c["reps"], keep_dist=keep, seed=c["seed"], plus1=c["plus1"])
+            return (d["pvalue"], d["obs_ts"], d["dist"]) if keep else (d["pvalue"], d["obs_ts"])
+    a = guarded(lambda: call(True), secs=180); b = guarded(lambda: call(False), secs=180)
+    out = {"keep": [a[0]] + ([float(a[1][0]), float(a[1][1]), len(a[1][2])] if a[0] == "ok" else list(a)[1:3]),
+           "nokeep": [b[0]] + ([float(b[1][0]), float(b[1][1])] if b[0] == "ok" else list(b)[1:3])}
+    if a[0] == "ok":
+        d = np.asarray(a[1][2], dtype=float); out["up"] = int(np.sum(d >= float(a[1][1])))
+    return out
+
+
+def oracle_manyreps(c, o):
+    name = "stratified_two_sample" if c["fn"] == "s2s" else "simulate_ts_dist"
+    if o["keep"][0] != "ok" or o["nokeep"][0] != "ok":
+        _v = emit({"why": f"{name}(reps={c['reps']}) raised {o['keep'][:3]} / {o['nokeep'][:3]}", "cls": f"{name}:raises"})
+        if _v: return _v
+        return None
+    p, tst, nd = o["keep"][1:4]
+    if nd != c["reps"]:
+        _v = emit({"why": f"{name}: len(dist) = {nd}, reps = {c['reps']}", "cls": f"{name}:dist-length"})
+        if _v: return _v
+    if not close(o["nokeep"][1], p) or not same_result(o["nokeep"][2], tst):
+        _v = emit({"why": f"{name}(reps={c['reps']}, seed={c['seed']}): keep_dist=False gives (p, stat) = {o['nokeep'][1:3]}, keep_dist=True {[p, tst]} on the same seed", "cls": f"{name}:keepdist-differs"})
+        if _v: return _v
+    cc = 1 if c["plus1"] else 0
+    pg = Fraction(o["up"] + cc, c["reps"] + cc)
+    want = pg if (c["fn"] == "ts" or c["alt"] == "greater") else None
+    if want is not None and not close(p, want, 1e-9):
+        _v = emit({"why": f"{name}(reps={c['reps']}): p = {p} but (#{{dist >= observed}} + c)/(reps + c) = {float(want)}", "cls": f"{name}:tail:greater"})
+        if _v: return _v
+    return None
+
+
 def run(c):
     f = c["f"]
+    if f == "manyreps":
+        return run_manyreps(c)
+    if f == "pwgx":
+        return run_pwgx(c)
     if f == "pwg":
         x = to_arr([F(v) for v in c["x"]], c["dtype"]); g = np.array(c["g"])
         t = Tape(None, chooser_of(c))
@@ -479,6 +592,10 @@ def within_strata_ok(orig, new, g):
 
 def oracle(c, o):
     f = c["f"]
+    if f == "pwgx":
+        return oracle_pwgx(c, o)
+    if f == "manyreps":
+        return oracle_manyreps(c, o)
     if f == "pwg":
         if o["r"][0] != "ok":
             _v = emit({"why": f"permute_within_groups raised {o['r']}", "cls": "pwg:raises"})
